@@ -1,6 +1,7 @@
 import H2T.Lemmas.Balance
 import H2T.Lemmas.TagRich
 import H2T.Lemmas.TagTreePre
+import H2T.Lemmas.TagTreeTable
 
 /-! # C09 — rich annotations mirror element nesting exactly
 
@@ -20,9 +21,13 @@ ancestors, outermost first — for every width, wrapping and block nesting (comp
 prefixes avoid, since a prefix is repeated on every line).  **`<pre>` is covered too** (`tags_are_annotating_ancestors_pre`):
 inside a `<pre>` element every character additionally carries the `Preformat` annotation on top of the stack; whether its
 flag reads `false` (first piece of a line) or `true` (continuation after a hard wrap) depends on wrapping, so the tag
-vectors are compared under the view `erasePre` that identifies the two.  Tables (cells side by side) and the value of
-the continuation flag are decided by correspondence and the per-character oracle (C12 proves the flag for lines that
-fit). -/
+vectors are compared under the view `erasePre` that identifies the two.  **Tables** (`no_tagged_character_invented`):
+cells are laid out side by side, so the order of the output is not the document's; what is proved for *every* render tree
+is that no tagged character is invented — each (character, tag vector) pair occurs in the output at most as often as in
+the specification `nodeTT`, which walks tables too (table, row and cell colours on the stack; a fresh strikeout count and
+`pre` depth per cell); together with C03's conservation of the characters this fixes the tag of every unique token.  The
+value of the continuation flag and equality for tables are decided by correspondence and the per-character oracle (C12
+proves the flag for lines that fit). -/
 
 namespace H2T.C09
 
@@ -210,6 +215,45 @@ example : ((renderTree {} Deco.rich 5 exPre).toOption.map fun ls => vw erasePre 
     some (pf richAlpha (nodeTN erasePre {} Deco.rich [] 0 0 exPre)) := by decide +kernel
 example : ((renderTree {} Deco.rich 5 exPre).toOption.map fun ls => ((ls.flatMap trink).filter fun c => c.tag.contains (Ann.pre true)).length) = some 12 := by
   decide +kernel
+
+/-! ## tables -/
+
+/-- **no tagged character is invented — every render tree, tables included**: for every viewed cell `y` — a character that
+    is not box-drawing and not one the block prefixes are made of, with a tag vector — every decorator, width and
+    configuration (footnotes off): the rendered lines hold `y` at most as often as the specification `nodeTT`, in which
+    each character of a text node carries the annotations of its annotating ancestors, outermost first (the table's, the
+    row's and the cell's colours included).  Nested tables, stacked rows, border collapsing and padding add box-drawing
+    characters and blanks only; cells of zero width are dropped (which is why this is `≤`). -/
+theorem no_tagged_character_invented (ν : Tag → Tag) (P : Ch → Bool) (y : Cell) (hyb : isBox y.ch = false) (hyP : P y.ch = true)
+    (cfg : Cfg) (d : Deco) (hν : PreView ν d) (w : Nat) (tree : RNode) (ls : List RLine) (hfn : cfg.footnotes = false)
+    (hd : DecoAvoids P d) (h : renderTree cfg d w tree = .ok ls) :
+    ((ls.flatMap trink).map (retag ν)).count y ≤ (nodeTT ν cfg d [] 0 0 tree).count y :=
+  renderTree_tagsT ν P y hyb hyP cfg d hν w tree ls hfn hd h
+
+/-- …for rich output -/
+theorem rich_no_tagged_character_invented (y : Cell) (hyb : isBox y.ch = false) (hyP : richAlpha y.ch = true) (cfg : Cfg) (w : Nat)
+    (tree : RNode) (ls : List RLine) (hfn : cfg.footnotes = false) (h : renderTree cfg Deco.rich w tree = .ok ls) :
+    ((ls.flatMap trink).map (retag erasePre)).count y ≤ (nodeTT erasePre cfg Deco.rich [] 0 0 tree).count y :=
+  renderTree_tagsT erasePre richAlpha y hyb hyP cfg Deco.rich erasePre_rich w tree ls hfn rich_avoids h
+
+/-- what the specification says about a table: rows in order, each cell's children walked with the table's, the row's and
+    the cell's colours appended to the stack -/
+theorem spec_table (ν : Tag → Tag) (cfg : Cfg) (d : Deco) (st : Tag) (dep pre : Nat) (sty rsty csty : Style) (kids : List RNode) (n : Nat) :
+    nodeTT ν cfg d st dep pre (.table sty [.row rsty [.cell csty 1 kids]] n) =
+      listTT ν cfg d (st ++ styleTags d sty ++ styleTags d rsty ++ styleTags d csty) 0 (preIn csty 0) kids := by
+  simp [nodeTT, rowsTT, cellsTT]
+
+/-! non-vacuity: a coloured table with a coloured row, an emphasised cell, a coloured cell and a spanning row at width 12:
+    the tagged characters of the output are those of the specification (here with equality) -/
+def exTable : RNode := .box {} .container [
+  .table {fg := some ⟨9,9,9⟩} [.row {bg := some ⟨1,1,1⟩} [.cell {} 1 [.box {} .em [.text {} (strCh "ab")]], .cell {fg := some ⟨2,2,2⟩} 1 [.text {} (strCh "cd ef")]],
+              .row {} [.cell {} 2 [.box {} .strong [.text {} (strCh "gh")]]]] 2,
+  .text {} (strCh "zz")]
+example : ((renderTree {} Deco.rich 12 exTable).toOption.map fun ls =>
+      ((ls.flatMap trink).filter (fun c => richAlpha c.ch && !isBox c.ch)).map fun c => (c.ch.cp, c.tag)) =
+    some ((nodeTT erasePre {} Deco.rich [] 0 0 exTable).map fun c => (c.ch.cp, c.tag)) := by decide +kernel
+example : ((nodeTT erasePre {} Deco.rich [] 0 0 exTable).map fun c => (c.ch.cp, c.tag.length)) =
+    [(97, 3), (98, 3), (99, 3), (100, 3), (101, 3), (102, 3), (103, 2), (104, 2), (122, 0), (122, 0)] := by decide +kernel
 
 /-- with whitespace block prefixes (custom decorators; `dd` indentation) nothing needs to be filtered: *all* visible cells
     of the output are those of the program, in order, with their tags -/
